@@ -69,6 +69,78 @@ def expected_links(pkg, prefix):
     return allowed
 
 
+def expected_run_links(pkg, prefix):
+    """For every run text of the form t<number>: the link the property prescribes (None = not linked), from the field
+    structure and the w:hyperlink elements of the package; reading order within each part."""
+    rels = {i: tg for i, tg, ty in pkg.rels}
+    out = {}
+
+    def part(nodes):
+        stack = []          # open complex fields: {"instr": str pieces, "link": parsed link or None, "sep": bool}
+        cur_instr = []
+
+        def walk(nodes, wlink):
+            for n in nodes:
+                if not isinstance(n, XmlElement):
+                    continue
+                if n.name == "w:fldChar":
+                    ty = n.attributes.get("w:fldCharType")
+                    if ty == "begin":
+                        stack.append({"link": None, "sep": False})
+                        del cur_instr[:]
+                    elif ty == "separate" and stack:
+                        text = "".join(cur_instr)
+                        m = HREF_FIELD.match(text)
+                        m2 = ANCHOR_FIELD.match(text)
+                        stack[-1]["sep"] = True
+                        stack[-1]["link"] = m.group(1) if m else ("#" + prefix + m2.group(1) if m2 else None)
+                    elif ty == "end" and stack:
+                        stack.pop()
+                elif n.name == "w:instrText":
+                    cur_instr.append("".join(c.value for c in n.children if not isinstance(c, XmlElement)))
+                elif n.name == "w:hyperlink":
+                    rid, anchor = n.attributes.get("r:id"), n.attributes.get("w:anchor")
+                    link = wlink
+                    if rid is not None:
+                        link = rels[rid].split("#", 1)[0] + "#" + anchor if anchor is not None else rels[rid]
+                    elif anchor is not None:
+                        link = "#" + prefix + anchor
+                    walk(n.children, link)
+                elif n.name == "w:r":
+                    # the field state that counts is the one AFTER the run's own children were read
+                    walk([c for c in n.children if isinstance(c, XmlElement) and c.name in ("w:fldChar", "w:instrText")], wlink)
+                    field = next((f["link"] for f in reversed(stack) if f["sep"] and f["link"] is not None), None)
+                    for c in n.children:
+                        if isinstance(c, XmlElement) and c.name == "w:t":
+                            txt = "".join(x.value for x in c.children if not isinstance(x, XmlElement))
+                            for m in re.finditer(r"t(\d+)", txt):
+                                out[m.group(0)] = field if field is not None else wlink
+                    walk([c for c in n.children if isinstance(c, XmlElement) and c.name not in ("w:fldChar", "w:instrText", "w:t")], wlink)
+                elif n.name in ("w:del", "w:rPr", "w:pPr", "w:delText"):
+                    continue
+                elif n.name == "w:pict":
+                    walk(n.children, None)      # text-box content is placed after the host paragraph, outside its w:hyperlink
+                elif n.name == "mc:AlternateContent":
+                    walk(n.find_child_or_null("mc:Fallback").children, wlink)
+                elif n.name == "w:sdt":
+                    if n.find_child_or_null("w:sdtPr").find_child("wordml:checkbox") is None:
+                        walk(n.find_child_or_null("w:sdtContent").children, wlink)
+                else:
+                    walk(n.children, wlink)
+        walk(nodes, None)
+    part(pkg.body)
+    return out
+
+
+def text_links(forest, link, out):
+    for n in forest:
+        if "name" in n:
+            text_links(n["children"], n["attrs"].get("href", link) if n["name"] == "a" and "href" in n["attrs"] else link, out)
+        else:
+            for m in re.finditer(r"t(\d+)", n.get("text", "")):
+                out[m.group(0)] = link
+
+
 def collect(forest, out):
     for n in forest:
         if "name" in n:
@@ -96,6 +168,14 @@ def oracle(pkg, prefix, html, comment_mapping):
                 return "note/comment href %r does not resolve to an id in the output" % h
         elif h not in allowed:
             return "href %r is not the target of any link in the document" % h
+    # every run's text is linked to exactly the target the document gives it (innermost field, else its w:hyperlink)
+    if not pkg.meta.get("skip_run_links"):
+        exp = expected_run_links(pkg, prefix)
+        got = {}
+        text_links(forest, None, got)
+        for k, v in exp.items():
+            if k in got and got[k] != v:
+                return "text %r is linked to %r, the document links it to %r" % (k, got[k], v)
     # note references: k-th reference labelled [k], k-th li is its note, back-link returns
     refs = [e for e in els if e["name"] == "a" and re.match("^" + re.escape(prefix) + r"(footnote|endnote)-ref-", e["attrs"].get("id", ""))]
     for k, e in enumerate(refs):
